@@ -53,6 +53,9 @@ class Facts:
                     self.meta = r
         self._callers = None
         self._aggsites = None
+        self.new_fns = set()      # functions that do not exist in the baseline (engine/normalise.py)
+        self._hidden = None
+        self.normalisation = {}
         # normalised (generic-free) aliases: `Ctx::<T>::m` is addressable as `Ctx::m`
         self._alias = {}
         for k in self._raw:
@@ -70,8 +73,83 @@ class Facts:
         return k
 
     # ------------------------------------------------------------------
-    def fn_keys(self):
+    def fn_keys_raw(self):
         return list(self._raw.keys())
+
+    def fn_keys(self):
+        h = self.hidden()
+        return [k for k in self._raw if k not in h]
+
+    # ------------------------------------------------------------------ baseline-relative view
+    def set_new_fns(self, new):
+        """functions absent from the baseline: their bodies are inlined into their callers (engine/inline.py); the summaries of the
+        callers are merged accordingly so that crate-wide pre-filters see the moved code where it used to be"""
+        self.new_fns = set(new)
+        self._fn.clear()
+        self._hidden = None
+        self._callers = None
+        self._aggsites = None
+        if not self.new_fns:
+            return
+        self._raw_sums = self.sums
+        memo = {}
+
+        def merged(k, stack=()):
+            if k in memo:
+                return memo[k]
+            s = self._raw_sums.get(k)
+            if s is None:
+                return {"calls": [], "aggs": []}
+            calls = list(s["calls"])
+            aggs = list(s["aggs"])
+            for d, r in s["calls"]:
+                n = norm(r or d) if (r or d) else None
+                ck = self._alias.get(n, n)
+                if ck in self.new_fns and ck not in stack and ck != k:
+                    m = merged(ck, stack + (k,))
+                    calls += [c for c in m["calls"] if c not in calls]
+                    aggs += [a for a in m["aggs"] if a not in aggs]
+            out = dict(s)
+            out["calls"] = calls
+            out["aggs"] = aggs
+            memo[k] = out
+            return out
+        self.sums = {k: merged(k) for k in self._raw_sums}
+
+    def hidden(self):
+        """new functions whose every use was absorbed by inlining: they are not iterated as bodies of their own"""
+        if self._hidden is not None:
+            return self._hidden
+        self._hidden = set()
+        if not self.new_fns:
+            return self._hidden
+        raw_callers = {}
+        for k, s in getattr(self, "_raw_sums", self.sums).items():
+            for d, r in s["calls"]:
+                for x in (d, r):
+                    if x:
+                        raw_callers.setdefault(norm(x), set()).add(k)
+        hid = set()
+        for n in sorted(self.new_fns):
+            if re.search(r"::\{closure#\d+\}", n) or (n.startswith("<") and " as " in n):
+                continue
+            callers = {c for c in raw_callers.get(norm(n), ()) if c != n and not c.startswith(n + "::{")}
+            if not callers:
+                continue
+            cor = n + "::{closure#0}"
+            is_async = cor in self.new_fns and (self.fn(cor) is not None and self.fn(cor).is_coroutine)
+            ok = True
+            for c in callers:
+                f = self.fn(c)
+                done = (f.rec.get("inlined") or []) if f is not None else []
+                if n not in done or (is_async and cor not in done):
+                    ok = False
+            if ok:
+                hid.add(n)
+                if is_async:
+                    hid.add(cor)
+        self._hidden = hid
+        return hid
 
     def has(self, key):
         return key in self._raw or key in self._alias
@@ -85,20 +163,28 @@ class Facts:
         raw = self._raw.get(key)
         if raw is None:
             return None
-        f = Fn(json.loads(raw), key, self)
+        rec = json.loads(raw)
+        if self.new_fns:
+            import inline
+            rec = inline.inline_new(self, key, rec, self.new_fns)
+        f = Fn(rec, key, self)
         self._fn[key] = f
         return f
 
     def find(self, pattern):
         """Keys whose def path matches the regex (search)."""
         rx = re.compile(pattern)
-        return [k for k in self._raw if rx.search(k) or rx.search(norm(k))]
+        h = self.hidden()
+        return [k for k in self._raw if k not in h and (rx.search(k) or rx.search(norm(k)))]
 
     def callers(self):
         """callee (normalised def or res) -> set of caller keys"""
         if self._callers is None:
             c = {}
+            h = self.hidden()
             for k, s in self.sums.items():
+                if k in h:
+                    continue
                 for d, r in s["calls"]:
                     for x in (d, r):
                         if x:
@@ -112,7 +198,10 @@ class Facts:
     def agg_sites(self):
         if self._aggsites is None:
             a = {}
+            h = self.hidden()
             for k, s in self.sums.items():
+                if k in h:
+                    continue
                 for g in s["aggs"]:
                     a.setdefault(g, set()).add(k)
             self._aggsites = a
